@@ -17,7 +17,7 @@ META['C18'] = dict(
 META['C11'] = dict(
     text='Generated-input search over (message, outlen, key, chunking, injected counter state, invalid parameter tuples, commitment inputs) against an '
          'independent RFC 7693 model; 360k cases quick / 22M thorough, messages of more than 4 GiB handed over in one call (2 quick / 16 thorough) and as chunked streams (thorough), '
-         'plus a libFuzzer campaign (480k / 40M executions) with the same oracle. Exploration, not proof: counters other than the injected near-wrap values are unexplored.'',
+         'plus a libFuzzer campaign (480k / 40M executions) with the same oracle. Exploration, not proof: counters other than the injected near-wrap values are unexplored.',
     note='Trusted: model/ref_blake2b.cpp (checked at setup against the RFC vector and 2000 CPython hashlib digests); state injection relies on the public blake2b_state layout.',
     technique='property-based testing (rapidcheck) and coverage-guided fuzzing (libFuzzer) against an independent reference model; metamorphic chunking relation',
 )
@@ -62,7 +62,7 @@ META['C05'] = dict(
 )
 META['C02'] = dict(
     text='Generated (key,input,version) triples hashed by the library and by an independent executable reading of specs.md ch.2-7 (Blake2b, AES generators, Argon2d fill, SuperscalarHash '
-         'generator, dataset items, VM, driver), then re-hashed by two differently compiled builds in separate processes. 64 triples quick / 1536 thorough; each model hash costs ~1.5 s and each '
+         'generator, dataset items, VM, driver), then re-hashed by two differently compiled builds in separate processes. 640 triples quick (32 keys x 10 inputs) / 2400 thorough; each model hash costs ~0.6 s and each '
          'new key ~2 s, which bounds the exploration.',
     note='Trusted: the model (anchored to RFC 7693/9106, FIPS-197, hashlib, AES-NI and all 10 published digests); the loose parts of spec ch.6 are pinned to upstream behaviour and validated only by those digests and by C09.',
     technique='property-based testing (rapidcheck) against an independent executable specification; cross-build / cross-process differential',
@@ -97,7 +97,7 @@ META['C01'] = dict(
 META['C03'] = dict(
     text='Model-based generation of API histories: a harness-side model of caches, datasets and VMs (key, epoch, binding, version, batch in flight) decides which generated command is admissible under the documented '
          'contract and what every returned digest must be; the real objects run under an allocator that fills fresh blocks with garbage, poisons freed ones and reuses big-block addresses. 50 histories (~340 compared digests) '
-         'quick / 1632 thorough. Histories shrink as whole command sequences (rapidcheck + in-process and driver-side ddmin).',
+         'quick / 1312 thorough. Histories shrink as whole command sequences (rapidcheck + in-process and driver-side ddmin).',
     note='Trusted: the encoding of the documented contract in the preconditions; the fresh-object digest as oracle (its agreement with the spec is C02).',
     technique='stateful / model-based property testing (rapidcheck command sequences, sequence shrinking) with fresh-object differential oracle',
 )
@@ -131,7 +131,7 @@ META['C14'] = dict(
 
 META['C17'] = dict(
     text='Cross-build differential: the same tree compiled with the x86 feature macros undefined (generic C++ fallbacks) is loaded next to the default build; generated operands (400k quick / 100M thorough), programs '
-         '(320 / 40k, through the real interpreter loop of both builds) and (key,input,version) triples with dataset items and rounding-mode preservation are compared.',
+         '(320 / 24k, through the real interpreter loop of both builds) and (key,input,version) triples with dataset items and rounding-mode preservation are compared.',
     note='Trusted: undefining the macros reproduces the code a port without those features compiles; endianness-dependent fallbacks cannot be exercised on a little-endian host.',
     technique='differential property-based testing (rapidcheck) between two build configurations of the same tree',
 )
